@@ -519,29 +519,186 @@ Qed.
 Lemma uncaught_att_exc : forall ns pl i, uncaught ns = true -> att_exc ns pl i = Some E_LOCKED.
 Proof. intros ns pl i H. unfold att_exc. rewrite H. reflexivity. Qed.
 
+(* ---------- the lazily evaluated actions *)
+Lemma run_task_ok_output : forall fuel maxr lk ns xs pl a0 ys log lk',
+  run_task fuel maxr lk ns xs pl a0 = (TOk ys, log, lk') -> ys = xs.
+Proof.
+  induction fuel as [|fuel IH]; intros maxr lk ns xs pl a0 ys log lk' H; [discriminate|].
+  cbn [run_task] in H.
+  destruct (attempt lk ns xs (hd None pl) (attempt_next a0)) as [r lk1] eqn:Ea.
+  destruct (a_out r) as [e|] eqn:Eo.
+  - destruct (retry_stop (attempt_next a0) maxr && retry_reraise false); [discriminate|].
+    destruct (run_task fuel maxr lk1 ns xs (tl pl) (attempt_next a0)) as [[t l] lk2] eqn:Er.
+    inversion H; subst. eapply IH. exact Er.
+  - inversion H; subst. unfold attempt in Ea.
+    destruct (run_nested lk ns) as [[o raised] lk0]. destruct raised.
+    + inversion Ea; subst. discriminate.
+    + destruct (hd None pl); inversion Ea; subst; [discriminate|reflexivity].
+Qed.
+
+Lemma firstn_prefix_app : forall {A} n (l1 l2 : list A), (n <= length l1)%nat -> firstn n (l1 ++ l2) = firstn n l1.
+Proof.
+  intros. rewrite firstn_app. replace (n - length l1)%nat with 0%nat by lia. cbn. apply app_nil_r.
+Qed.
+
+Lemma firstn_over_app : forall {A} n (l1 l2 : list A), (length l1 <= n)%nat ->
+  firstn n (l1 ++ l2) = l1 ++ firstn (n - length l1) l2.
+Proof. intros. rewrite firstn_app. rewrite firstn_all2 by assumption. reflexivity. Qed.
+
+Lemma seen_of_firstn : forall pos xs n, (n <= length (seen_of pos xs))%nat -> firstn n (seen_of pos xs) = firstn n xs.
+Proof.
+  intros pos xs n H. destruct (seen_of_prefix pos xs) as [m E]. rewrite E in *.
+  rewrite firstn_firstn. rewrite firstn_length in H. f_equal. lia.
+Qed.
+
+(* the fault-free stream the result handler would see *)
+Definition lazy_stream (j : job) (ps : list part) : list Z := concat (map (stage_in j) ps).
+
+Definition lazy_post (maxr : Z) (j : job) (need : nat) (ps : list part) (r : lres) : Prop :=
+  match r with
+  | LOk got => got = firstn need (lazy_stream j ps)
+  | LErr e i a => if j_eager j then a = maxr else a = 1
+  | LFuel => False
+  end.
+
+Lemma no_logs_short : forall ps, Forall (fun l : list arec => (length l <= 1)%nat) (no_logs ps).
+Proof. induction ps; constructor; [cbn; lia|assumption]. Qed.
+
+Lemma lazy_tasks_spec : forall maxr j, 1 <= maxr -> forall ps idx need,
+  exists r logs, lazy_tasks (Z.to_nat maxr) maxr true j idx need ps = (r, logs, true)
+    /\ nested_all_refused logs
+    /\ (j_eager j = false -> Forall (fun l => (length l <= 1)%nat) logs)
+    /\ lazy_post maxr j need ps r.
+Proof.
+  intros maxr j Hm. induction ps as [|p rest IH]; intros idx need.
+  - exists (LOk []), []. split; [reflexivity|]. split; [constructor|]. split; [constructor|].
+    cbn. destruct need; reflexivity.
+  - destruct need as [|need'].
+    { exists (LOk []), (no_logs (p :: rest)). split; [reflexivity|]. split; [apply no_logs_nested|].
+      split; [intros _; apply no_logs_short|reflexivity]. }
+    cbn [lazy_tasks]. destruct (j_eager j) eqn:Eager.
+    + (* eager task function: ordinary retry while the partition is computed *)
+      destruct (exhausts maxr p) eqn:Hp.
+      * destruct (exhausts_last maxr p Hm Hp) as [e He].
+        destruct (task_err maxr j p e Hm Hp He) as [Erun Hlog]. rewrite Erun.
+        eexists; eexists. split; [reflexivity|]. split.
+        { constructor; [apply task_log_nested|apply no_logs_nested]. }
+        split; [discriminate|]. cbn. rewrite Eager. reflexivity.
+      * destruct (task_ok maxr j p Hm Hp) as [log [Erun Hlog]]. rewrite Erun.
+        destruct (S need' <=? length (stage_in j p))%nat eqn:Hle.
+        { apply Nat.leb_le in Hle. eexists; eexists. split; [reflexivity|]. split.
+          { constructor; [destruct Hlog as [n [-> _]]; apply task_log_nested|apply no_logs_nested]. }
+          split; [discriminate|]. cbn [lazy_post lazy_stream map concat].
+          symmetry. apply firstn_prefix_app. exact Hle. }
+        { apply Nat.leb_gt in Hle.
+          destruct (IH (idx + 1) (S need' - length (stage_in j p))%nat) as [r [logs [E [Hn [_ Hpost]]]]].
+          rewrite E. eexists; eexists. split; [reflexivity|]. split.
+          { constructor; [destruct Hlog as [n [-> _]]; apply task_log_nested|exact Hn]. }
+          split; [discriminate|].
+          destruct r as [got|e i a|]; cbn [lcons lazy_post] in *; [|exact Hpost|exact Hpost].
+          subst got. cbn [lazy_stream map concat]. symmetry. apply firstn_over_app. lia. }
+    + (* generator task function: it only runs when the result handler pulls from it *)
+      rewrite run_nested_locked. destruct (uncaught (p_nest p)) eqn:Hu.
+      * eexists; eexists. split; [reflexivity|]. split.
+        { constructor; [|apply no_logs_nested]. constructor; [|constructor]. cbn. apply refusals_all_zero. }
+        split; [intros _; constructor; [cbn; lia|apply no_logs_short]|]. cbn. rewrite Eager. reflexivity.
+      * destruct (hd None (p_plan p)) as [ft|] eqn:Hf.
+        { destruct (S need' <=? length (seen_of (f_pos ft) (stage_in j p)))%nat eqn:Hle.
+          - apply Nat.leb_le in Hle. eexists; eexists. split; [reflexivity|]. split.
+            { constructor; [|apply no_logs_nested]. constructor; [|constructor]. cbn. apply refusals_all_zero. }
+            split; [intros _; constructor; [cbn; lia|apply no_logs_short]|].
+            cbn [lazy_post lazy_stream map concat]. rewrite seen_of_firstn by exact Hle.
+            symmetry. apply firstn_prefix_app.
+            destruct (seen_of_prefix (f_pos ft) (stage_in j p)) as [m Em]. rewrite Em, firstn_length in Hle. lia.
+          - eexists; eexists. split; [reflexivity|]. split.
+            { constructor; [|apply no_logs_nested]. constructor; [|constructor]. cbn. apply refusals_all_zero. }
+            split; [intros _; constructor; [cbn; lia|apply no_logs_short]|]. cbn. rewrite Eager. reflexivity. }
+        { destruct (S need' <=? length (stage_in j p))%nat eqn:Hle.
+          - apply Nat.leb_le in Hle. eexists; eexists. split; [reflexivity|]. split.
+            { constructor; [|apply no_logs_nested]. constructor; [|constructor]. cbn. apply refusals_all_zero. }
+            split; [intros _; constructor; [cbn; lia|apply no_logs_short]|].
+            cbn [lazy_post lazy_stream map concat]. symmetry. apply firstn_prefix_app. exact Hle.
+          - apply Nat.leb_gt in Hle.
+            destruct (IH (idx + 1) (S need' - length (stage_in j p))%nat) as [r [logs [E [Hn [Hs Hpost]]]]].
+            rewrite E. eexists; eexists. split; [reflexivity|]. split.
+            { constructor; [|exact Hn]. constructor; [|constructor]. cbn. apply refusals_all_zero. }
+            split; [intros _; constructor; [cbn; lia|apply Hs; reflexivity]|].
+            destruct r as [got|e i a|]; cbn [lcons lazy_post] in *; [|exact Hpost|exact Hpost].
+            subst got. cbn [lazy_stream map concat]. symmetry. apply firstn_over_app. lia. }
+Qed.
+
+(* what take / first / isEmpty return on the fault-free stream *)
+Definition lazy_plain_result (j : job) : jres :=
+  lazy_finish j (LOk (firstn (lazy_need (j_action j)) (lazy_stream j (j_parts j)))).
+
+Lemma run_lazy_unlocked : forall maxr j,
+  run_lazy_job maxr false j =
+    (let '(r, logs, _) := lazy_tasks (Z.to_nat maxr) maxr true j 0 (lazy_need (j_action j)) (j_parts j) in
+     (mkOut (lazy_finish j r) logs, false)).
+Proof.
+  intros. unfold run_lazy_job. rewrite rdd_init_refused_spec, job_refused_spec, lock_on_entry_true.
+  destruct (lazy_tasks (Z.to_nat maxr) maxr true j 0 (lazy_need (j_action j)) (j_parts j)) as [[r logs] lk].
+  rewrite lock_after_ok_false, lock_after_error_false. destruct (lazy_finish j r); reflexivity.
+Qed.
+
+Lemma lazy_lock_released : forall maxr j, snd (run_lazy_job maxr false j) = false.
+Proof.
+  intros. rewrite run_lazy_unlocked.
+  destruct (lazy_tasks (Z.to_nat maxr) maxr true j 0 (lazy_need (j_action j)) (j_parts j)) as [[r logs] lk].
+  reflexivity.
+Qed.
+
+Lemma lazy_actions : forall maxr j, 1 <= maxr ->
+  let o := fst (run_lazy_job maxr false j) in
+  (o_res o = lazy_plain_result j
+   \/ exists e i a, o_res o = JErr e i a /\ (if j_eager j then a = maxr else a = 1))
+  /\ (j_eager j = false -> Forall (fun l => (length l <= 1)%nat) (o_logs o))
+  /\ nested_all_refused (o_logs o).
+Proof.
+  intros maxr j Hm. cbv zeta. rewrite run_lazy_unlocked.
+  destruct (lazy_tasks_spec maxr j Hm (j_parts j) 0 (lazy_need (j_action j))) as [r [logs [E [Hn [Hs Hpost]]]]].
+  rewrite E. cbn [fst o_res o_logs]. split; [|split; assumption].
+  destruct r as [got|e i a|]; cbn [lazy_post] in Hpost.
+  - left. subst got. reflexivity.
+  - right. exists e, i, a. split; [reflexivity|exact Hpost].
+  - contradiction.
+Qed.
+
 (* ---------- sequences of jobs on one context *)
+Lemma any_lock_released : forall mode maxr j, snd (run_any mode maxr false j) = false.
+Proof. intros. unfold run_any. destruct (is_lazy (j_action j)); [apply lazy_lock_released|apply lock_released]. Qed.
+
+Lemma any_refused_while_locked : forall mode maxr j,
+  run_any mode maxr true j = (mkOut JRefused (no_logs (j_parts j)), true).
+Proof.
+  intros. unfold run_any. destruct (is_lazy (j_action j)); [|apply run_job_locked].
+  unfold run_lazy_job. rewrite rdd_init_refused_spec. reflexivity.
+Qed.
+
 Lemma usable_after : forall mode maxr js,
-  run_jobs mode maxr false js = (map (fun j => fst (run_job mode maxr false j)) js, false).
+  run_jobs mode maxr false js = (map (fun j => fst (run_any mode maxr false j)) js, false).
 Proof.
   induction js as [|j js IH]; [reflexivity|].
-  cbn [run_jobs map]. pose proof (lock_released mode maxr j) as Hl.
-  destruct (run_job mode maxr false j) as [o lk]. cbn [snd] in Hl. subst lk.
+  cbn [run_jobs map]. pose proof (any_lock_released mode maxr j) as Hl.
+  destruct (run_any mode maxr false j) as [o lk]. cbn [snd] in Hl. subst lk.
   rewrite IH. reflexivity.
 Qed.
 
 (* the outcome of a job does not depend on the jobs that ran before it on the same context *)
 Lemma usable_after_history : forall mode maxr history j d,
-  nth (length history) (fst (run_jobs mode maxr false (history ++ [j]))) d = fst (run_job mode maxr false j).
+  nth (length history) (fst (run_jobs mode maxr false (history ++ [j]))) d = fst (run_any mode maxr false j).
 Proof.
   intros. rewrite usable_after. cbn [fst]. rewrite map_app. cbn [map].
-  rewrite <- (map_length (fun j0 => fst (run_job mode maxr false j0)) history).
+  rewrite <- (map_length (fun j0 => fst (run_any mode maxr false j0)) history).
   apply nth_middle.
 Qed.
 
-Lemma followup_correct : forall mode maxr history j, 1 <= maxr -> all_ok maxr (j_parts j) = true ->
+Lemma followup_correct : forall mode maxr history j, 1 <= maxr ->
+  is_lazy (j_action j) = false -> all_ok maxr (j_parts j) = true ->
   o_res (nth (length history) (fst (run_jobs mode maxr false (history ++ [j]))) (mkOut JFuel [])) = JOk (plain_result j).
 Proof.
-  intros mode maxr history j Hm Hall. rewrite usable_after_history.
+  intros mode maxr history j Hm Hstrict Hall. rewrite usable_after_history.
+  unfold run_any. rewrite Hstrict.
   destruct (job_ok mode maxr j Hm Hall) as [logs [E _]]. rewrite E. reflexivity.
 Qed.
 
